@@ -38,6 +38,9 @@ def run(d):
 
 
 dirs = sorted(glob.glob(os.path.join(HERE, "seeded", "C*-*"))) if mode == "seeds" else sorted(glob.glob(os.path.join(HERE, "seeded", "benign", "C*")))
+only = os.environ.get("REGRESS_ONLY", "").split()
+if only:
+    dirs = [d for d in dirs if os.path.basename(d).split("-")[0] in only]
 bad = []
 with concurrent.futures.ThreadPoolExecutor(P) as ex:
     for ident, code, lines in ex.map(run, dirs):
